@@ -181,6 +181,7 @@ class SuperSim:
         for ev in script.get("events", []):
             self.inject.setdefault((ev["tick"], ev["k"]), []).append(ev)
         self.lag_rng = stream(script.get("run_seed", 0), "lag")
+        self.term_rng = stream(script.get("run_seed", 0), "term")
         self.fault_counts: Dict[str, int] = {}
         self.violations_inline: List[dict] = []
         self.closed = False
@@ -283,6 +284,12 @@ class SuperSim:
         self.phase = "drain"
         if self.queue is not None:
             self.queue.flush_all()
+        # a worker that was sent SIGTERM (terminate()) and is not waited for exits on its own before long
+        for p in self.procs:
+            if p.state == "terminating" and self.term_rng.random() < 0.7:
+                p.state = "zombie"
+                p._exitcode = -15
+                self.rec("terminated_exit", idx=p.idx, name=p.name)
         self.rec("sleep")
         if self.tick > self.script["ticks"] + 4:
             raise SimStop("scenario over")
